@@ -16,7 +16,7 @@ LEVEL = dict(
 )
 
 
-def run(ctx):
+def _run(ctx):
     F = ctx.facts("default")
     R = "R-WHO"
     # 1. Xref::merge
@@ -113,3 +113,10 @@ def run(ctx):
         okc = any(g.startswith("has_object(") and tr is False for g, tr in gs)
     ctx.ob("R-ORDER", "copy-on-write-only-when-absent", okc, "set_object is dominated by !new_document.has_object(id)", oc.where(),
            what="opt_clone_object_to_new_document copies the old object even when the update already holds a (newer) object under that id")
+
+
+def run(ctx):
+    _run(ctx)
+    import readerrules
+    readerrules.run(ctx, ctx.facts("default"), ("R1",))
+    readerrules.last_marker(ctx, ctx.facts("default"))
